@@ -13,6 +13,11 @@ CHECKS = {
    technique="TLA+ spec Integrate (integrate loop + reb_check_exit + exit conditions) checked by TLC incl. liveness; model paths replayed into C and Python front ends; hook traces of every integrator validated against Trace_Integrate",
    text="TLC checks Integrate exhaustively on a tick lattice for fixed-step and adaptive kinds (both directions, steps larger than the interval, targets before/after/equal, exact finishing on/off, two consecutive calls, an exit condition or loss of all particles at any boundary, rejected adaptive steps): ends at target / overshoot < one step / time monotone / right direction / dt restored / no-op / step count implied by dt / status names the first boundary / no step after exit, and termination under weak fairness. Binding: every root-to-leaf path of a dumped fixed-step model (quick ~2500 sampled, thorough all) is executed on nine fixed-step integrators through the C API and sim.integrate (exception class per status) and t, dt, status and step count after each call must equal the model's; hook traces (int_begin/check_exit/step/int_end) of ~14 scenarios x 20 integrator configurations (dyadic and non-dyadic steps, split partitions with digest comparison, injected user-stop/escape/encounter/no-particles events evaluated by the harness on the same state, pericentre passages with step-size floor) are validated by TLC against Trace_Integrate with every contract invariant evaluated in every state.",
    note="Doubles are abstracted to ranks (order and equality exact); t+dt, tmax-t, -dt and the 1e-12 test are evaluated by the harness in binary64 from logged operands. Collisions as exit condition are inferred from the logged status (no independent oracle here; C13 covers detection). Split invariance is checked for default safe_mode, one direction, no exit event."),
+ "C09": dict(
+   category="model_checking", design_ref="DESIGN.md 4/C09",
+   technique="TLA+ spec Schedule (operator words of WHFast/SABA/EOS/MERCURIUS/JANUS/LEAPFROG/SEI + synchronisation flag machine) checked by TLC; inner words emitted by TLC and compared with executed ones; hook traces of call sequences validated against Trace_Schedule",
+   text="TLC checks Schedule exhaustively for all 285 valid option combinations (WHFast coordinates x kernels x correctors x corrector2 x safe_mode x keep_unsynchronized x variational, 18 SABA types, 9 EOS splittings, MERCURIUS, JANUS orders, LEAPFROG, SEI) and every call sequence over step / synchronize / observe / set-recalculate up to depth 6: every unit of drift is matched by a unit of kick and centre-of-mass motion (Balanced), completing the deferred half step gives after merging exactly the safe-mode word (UnsafeEqualsSafe), correctors and processors bracket each synchronisation window exactly once, safe words of uncorrected schemes are palindromes, synchronising a synchronised state and observing execute nothing, keep_unsynchronized leaves the word untouched; correctors are drift/kick neutral and EOS inner schemes balanced. Binding: for configurations drawn from TLC's enumeration (quick ~65, thorough all) random call sequences and three-run bitwise traces are executed on real simulations; the words recorded by sub-step hooks (coefficients at 1e-8 dt), is_synchronized, and SHA-256 ids of internal coordinates and particles are validated by TLC against Trace_Schedule (word equality per call; keep-unsynchronised transparency; sync twice = once; observers inert; state after k steps independent of outputs requested in between); ~3000 executed inner words (5 corrector orders, corrector2, EOS shell-1 schemes x n, processors, SABA correctors) are compared with TLC's tables.",
+   note="Coefficient tables were transcribed once from the pinned sources and are validated algebraically by TLC; 'same trajectory up to rounding / truncation' is a sampled A5 clause (40 steps, one system); WHFast512 and TRACE are not hooked; modifying particles while unsynchronised is outside the contract."),
  "C06": dict(
    category="model_checking", design_ref="DESIGN.md 4/C06",
    technique="TLA+ specs ArchiveDelta (delta encoder/loader) and Cadence (auto-snapshot protocol) checked by TLC; real archive histories validated against Trace_ArchiveDelta; TLC-simulated Cadence behaviours replayed into the library",
